@@ -373,7 +373,13 @@ def db_env(E):
         return cls(*[_b(a) for a in args])
 
     def attr(n, k):
+        if raw(n) is None:
+            return None
         return norm(raw(n).getAttributeValue(''.join(map(chr, k)) if isinstance(k, list) else k))
+
+    def pure_child(n, tag):
+        c = raw(n).getChild(''.join(map(chr, tag)) if isinstance(tag, list) else tag)
+        return None if c is None else wrap(c)
 
     def n_children(n):
         return len(raw(n).children or [])
@@ -398,7 +404,7 @@ def db_env(E):
         'at_every_db_event': at_every_db_event, 'rows_all': lambda m: list(m.values()),
         'rows_unsent': lambda m: [r for r in m.values() if r[1] is None or r[1] == 0],
         'max_key': lambda m: max(m.keys()) if m else None,
-        'attr': attr, 'n_children': n_children, 'child': child,
+        'attr': attr, 'n_children': n_children, 'child': child, 'pure_child': pure_child,
     }
 
 
